@@ -1,5 +1,6 @@
 import YaegiVerif.Model.Restricted
 import YaegiVerif.Model.Env
+import YaegiVerif.Model.C13Options
 import YaegiVerif.Spec.OsEnv
 import YaegiVerif.Proofs.C13Env
 import YaegiVerif.Expected.C13
@@ -520,6 +521,213 @@ theorem host_logger_stream_witness : loggerStream G {} "log" "Default" = .hostSt
 /-- non-vacuity of the partial theorem -/
 example : ioException {} "fmt" "Println" = false ∧ ioStream G {} "fmt" "Println" = .optStdout ∧
     ioException { stdoutFile := true } "os" "Stdout" = false := by decide
+
+
+/-! ### `interp.New`: from a value of Options to what the script sees
+
+  `Option (List String)` = a Go slice: `none` is nil, `some []` is empty but non-nil. The condition that guards every
+  default is the `cond` of the regenerated `OptFlow` facts; the theorems below hold for EVERY value of Options. -/
+
+/-- interp/interp.go: the fields of `Options`, and for every statement of `New` that reads one: target, kind,
+    the condition that guards the default, the default -/
+theorem options_flows_tie :
+    Generated.C13.optionFields = Expected.C13.optionFields ∧ Generated.C13.optFlows = Expected.C13.optFlows := by decide
+
+/-- every field of Options is read by exactly one statement of New (a new field must be looked at) -/
+theorem options_fields_all_flow :
+    ∀ f ∈ G.optionFields, (G.optFlows.filter fun fl => fl.field == f.1).length = 1 := by decide
+
+private theorem flow_args : flowOf G "args" = some ⟨"Args", "args", "i.opt.args", "default-if", "_ == nil", "os.Args", []⟩ := by decide
+private theorem flow_stdin : flowOf G "stdin" = some ⟨"Stdin", "stdin", "i.opt.stdin", "default-if", "_ == nil", "os.Stdin", []⟩ := by decide
+private theorem flow_stdout : flowOf G "stdout" = some ⟨"Stdout", "stdout", "i.opt.stdout", "default-if", "_ == nil", "os.Stdout", []⟩ := by decide
+private theorem flow_stderr : flowOf G "stderr" = some ⟨"Stderr", "stderr", "i.opt.stderr", "default-if", "_ == nil", "os.Stderr", []⟩ := by decide
+private theorem flow_unrestricted : flowOf G "unrestricted" = some ⟨"Unrestricted", "unrestricted", "i.opt.unrestricted", "flag", "_", "zero", []⟩ := by decide
+private theorem flow_env : flowOf G "env" = some ⟨"Env", "env", "i.opt.env", "range", "", "map[string]string{}", ["!(options.Unrestricted)"]⟩ := by decide
+private theorem flow_fs : flowOf G "filesystem" = some ⟨"SourcecodeFilesystem", "filesystem", "i.opt.filesystem", "set-if", "_ != nil", "&realFS{}", []⟩ := by decide
+private theorem flow_gopath : flowOf G "GOPATH" = some ⟨"GoPath", "GOPATH", "i.opt.context.GOPATH", "always", "", "", []⟩ := by decide
+private theorem flow_tags : flowOf G "BuildTags" = some ⟨"BuildTags", "BuildTags", "i.opt.context.BuildTags", "set-if", "len(_) > 0", "build.Default.BuildTags", []⟩ := by decide
+
+/-- `if T = options.F; T == nil { T = D }` -/
+theorem resolve_default_if_nil {α : Type} (f s t d : String) (isNil : Bool) (len : Option Nat) (v : α) :
+    resolve ⟨f, s, t, "default-if", "_ == nil", d, []⟩ isNil len v = if isNil then .dflt d else .given v := by
+  cases isNil <;> simp [resolve, parseNilCond, NilCond.holds]
+
+theorem os_args_bound (cfg : Cfg) : ioStream G cfg "os" "Args" = .args :=
+  io_redirect_complete cfg ("os", "Args", .args) (by decide)
+
+/-- **the script's os.Args is the vector given in Options whenever Options.Args is non-nil — including the empty
+    vector ("the script gets no arguments")** — for every value of Options (restricted or not, any streams) and
+    every host -/
+theorem args_from_options (o : Options) (h : Host) (a : List String) (ha : o.args = some a) :
+    scriptArgs G o h = some a := by
+  simp [scriptArgs, scriptArgsSrc, os_args_bound, slotSlice, flow_args, resolve_default_if_nil, ha, ArgsSrc.value]
+
+/-- **… and the host's command line only when Options.Args is nil** (the documented default) -/
+theorem args_default_host (o : Options) (h : Host) (hn : o.args = none) : scriptArgs G o h = some h.args := by
+  simp [scriptArgs, scriptArgsSrc, os_args_bound, slotSlice, flow_args, resolve_default_if_nil, hn, ArgsSrc.value]
+
+/-- both at once: the host's arguments reach the script iff Options.Args is nil -/
+theorem args_src_iff (o : Options) (h : Host) : scriptArgsSrc G o h = .host ↔ o.args = none := by
+  cases ha : o.args with
+  | none => simp [scriptArgsSrc, os_args_bound, slotSlice, flow_args, resolve_default_if_nil, ha]
+  | some a => simp [scriptArgsSrc, os_args_bound, slotSlice, flow_args, resolve_default_if_nil, ha]
+
+/-- non-vacuity: the empty vector, one element, several; unrestricted mode; a host with a long command line -/
+example : scriptArgs G { args := some [] } { args := ["/usr/bin/host", "--secret=1"] } = some [] ∧
+    scriptArgs G { args := some ["prog"], unrestricted := true } { args := ["/usr/bin/host"] } = some ["prog"] ∧
+    scriptArgs G { args := some ["prog", "-v", "x"] } {} = some ["prog", "-v", "x"] ∧
+    scriptArgs G {} { args := ["/usr/bin/host", "--secret=1"] } = some ["/usr/bin/host", "--secret=1"] := by decide
+
+/-- what the `== nil` of the Args fact is for: were the condition `len(…) == 0`, an empty non-nil Options.Args would
+    hand the script the host's command line (the model is sensitive to the extracted condition) -/
+theorem args_guard_sensitivity :
+    resolve (⟨"Args", "args", "i.opt.args", "default-if", "len(_) == 0", "os.Args", []⟩ : OptFlow) false (some 0) ([] : List String) =
+      .dflt "os.Args" := by decide
+
+/-- what the stream given in Options means for a destination -/
+def expectedDest (o : Options) : Stream → Dest
+  | .optStdout => if o.stdout.isSome then .opt else .host
+  | .optStderr => if o.stderr.isSome then .opt else .host
+  | .optStdin => if o.stdin.isSome then .opt else .host
+  | _ => .unknown
+
+theorem stream_dest_from_options (o : Options) (s : Stream) : s = .optStdout ∨ s = .optStderr ∨ s = .optStdin →
+    streamDest G o s = expectedDest o s := by
+  rintro (rfl | rfl | rfl)
+  · cases hs : o.stdout <;> simp [streamDest, slotDest, slotIface, flow_stdout, resolve_default_if_nil, expectedDest, hs]
+  · cases hs : o.stderr <;> simp [streamDest, slotDest, slotIface, flow_stderr, resolve_default_if_nil, expectedDest, hs]
+  · cases hs : o.stdin <;> simp [streamDest, slotDest, slotIface, flow_stdin, resolve_default_if_nil, expectedDest, hs]
+
+private theorem required_streams_b :
+    (requiredRedirects.all fun r => r.2.2 == .optStdout || r.2.2 == .optStderr || r.2.2 == .optStdin || r.2.2 == .args) = true := by
+  decide
+
+/-- **every function of the required list writes to / reads from the stream given in Options whenever that field is
+    non-nil, and the host's own stream only when it is nil** — for every value of Options and every host -/
+theorem io_from_options (o : Options) (h : Host) :
+    ∀ r ∈ requiredRedirects, r.2.2 ≠ .args → ioDest G o h r.1 r.2.1 = expectedDest o r.2.2 := by
+  intro r hr hna
+  have h1 := io_redirect_complete (cfgOf G o h) r hr
+  have h2 := List.all_eq_true.mp required_streams_b r hr
+  simp only [Bool.or_eq_true, beq_iff_eq] at h2
+  unfold ioDest
+  rw [h1]
+  apply stream_dest_from_options
+  rcases h2 with ((h2 | h2) | h2) | h2
+  · exact Or.inl h2
+  · exact Or.inr (Or.inl h2)
+  · exact Or.inr (Or.inr h2)
+  · exact absurd h2 hna
+
+theorem builtins_from_options (o : Options) :
+    builtinDest G o "_print" = expectedDest o .optStdout ∧ builtinDest G o "_println" = expectedDest o .optStdout := by
+  unfold builtinDest
+  rw [print_builtins_redirected.1, print_builtins_redirected.2]
+  exact ⟨stream_dest_from_options o _ (Or.inl rfl), stream_dest_from_options o _ (Or.inl rfl)⟩
+
+example : ioDest G { stdout := some .other } {} "fmt" "Println" = .opt ∧ ioDest G {} {} "fmt" "Println" = .host ∧
+    ioDest G { stderr := some .file } {} "log" "Print" = .opt ∧ ioDest G { stdin := none, stdout := some .other } {} "fmt" "Scan" = .host := by
+  decide
+
+theorem unrestricted_from_options (o : Options) : effUnrestricted G o = some o.unrestricted := by
+  simp [effUnrestricted, flow_unrestricted]
+
+theorem cfgOf_unrestricted (o : Options) (h : Host) : (cfgOf G o h).unrestricted = o.unrestricted := by
+  simp [cfgOf, unrestricted_from_options]
+
+/-- what `New` loads into the interpreter's map: the entries of Options.Env in restricted mode, nothing otherwise;
+    a nil Env and an empty Env are the same thing, and there is no default taken from the host -/
+theorem env_entries_from_options (o : Options) :
+    envEntries G o = some (if o.unrestricted then [] else o.env.getD []) := by
+  simp [envEntries, flow_env, unrestricted_from_options]
+
+theorem init_virt_from_options (o : Options) :
+    initVirtOf G o = some (Env.initVirt o.unrestricted (o.env.getD [])) := by
+  cases hu : o.unrestricted <;> simp [initVirtOf, env_entries_from_options, Env.initVirt, hu, Env.parseEnv]
+
+/-- **in restricted mode the environment a script starts with is exactly the parsed Options.Env**, for every value
+    of Options and every host: never the host's -/
+theorem environ_from_options (o : Options) (h : Host) (hr : o.unrestricted = false) :
+    scriptEnviron G o h = .virt (Env.parseEnv (o.env.getD [])) := by
+  have hv := env_all_virtual (cfgOf G o h) (by rw [cfgOf_unrestricted]; exact hr) "Environ" (by decide)
+  simp [scriptEnviron, hv, init_virt_from_options, Env.initVirt, hr]
+
+/-- **nil Env ≡ empty Env ≡ no variables at all** (there is no "inherit the host's environment" value) -/
+theorem env_nil_eq_empty (o : Options) (h : Host) (hr : o.unrestricted = false) (hn : o.env = none ∨ o.env = some []) :
+    scriptEnviron G o h = .virt [] := by
+  rw [environ_from_options o h hr]
+  rcases hn with hn | hn <;> simp [hn, Env.parseEnv]
+
+private theorem environ_unrestricted_b :
+    (allCfgs.all fun cfg => !cfg.unrestricted ||
+      (!envVirtual G cfg "Environ" && effective G cfg "os" "Environ" == .table (.host "os" "Environ"))) = true := by decide
+
+/-- what `hr` excludes: with Options.Unrestricted the script sees the host's environment and Options.Env is ignored -/
+theorem environ_unrestricted_host (o : Options) (h : Host) (hu : o.unrestricted = true) : scriptEnviron G o h = .host := by
+  have hb := forall_cfg environ_unrestricted_b (cfgOf G o h)
+  simp only [cfgOf_unrestricted, hu, Bool.not_true, Bool.false_or, Bool.and_eq_true, Bool.not_eq_true', beq_iff_eq] at hb
+  simp [scriptEnviron, hb.1, hb.2]
+
+example : scriptEnviron G { env := some ["A=1", "B", "A=2=3"] } { env := [("HOME", "/host")] } = .virt [("A", "2=3"), ("B", "")] ∧
+    scriptEnviron G { env := none } { env := [("HOME", "/host")] } = .virt [] ∧
+    scriptEnviron G { env := some ["A=1"], unrestricted := true } { env := [("HOME", "/host")] } = .host := by decide
+
+/-- **Options.BuildTags is used when it has at least one element, else the tags of build.Default** (nil ≡ empty) -/
+theorem buildtags_from_options (o : Options) :
+    slotSlice G "BuildTags" o.buildTags =
+      if (o.buildTags.getD []).isEmpty then .dflt "build.Default.BuildTags" else .given (o.buildTags.getD []) := by
+  cases hl : (o.buildTags.getD []) <;> simp [slotSlice, flow_tags, resolve, parseNilCond, NilCond.holds, hl]
+
+/-- **Options.GoPath is used as it is, empty or not: the host's GOPATH never enters** -/
+theorem gopath_from_options (o : Options) : slotString G "GOPATH" o.goPath = .given o.goPath := by
+  simp [slotString, flow_gopath, resolve]
+
+/-- **Options.SourcecodeFilesystem is used whenever it is non-nil, the real file system otherwise** -/
+theorem filesystem_from_options {α : Type} (v : Option α) :
+    slotIface G "filesystem" v = if v.isSome then .given v else .dflt "&realFS{}" := by
+  cases v <;> simp [slotIface, flow_fs, resolve, parseNilCond, NilCond.holds]
+
+/-! #### flag -/
+
+private def cmdLineHostB (cfg : Cfg) : Bool :=
+  match effective G cfg "flag" "CommandLine" with
+  | .override r => hasId (closure G r.free) "os.Args"
+  | _ => false
+
+private theorem cmdline_host_b : allCfgs.all cmdLineHostB = true := by decide
+
+/-- F13-5: `flag.CommandLine` is created as `flag.NewFlagSet(os.Args[0], …)` over the HOST's os.Args: its name (and the
+    "Usage of …" line) is the host program's, whatever Options.Args is -/
+theorem cmdline_name_host (o : Options) (h : Host) : cmdLineNameSrc G o h = .host := by
+  have hb := forall_cfg cmdline_host_b (cfgOf G o h)
+  unfold cmdLineHostB at hb
+  unfold cmdLineNameSrc
+  split at hb
+  · next r hr => simp [hr, hb]
+  · exact absurd hb (by simp)
+
+/-- full-strength statement: the name of flag.CommandLine is element 0 of the arguments given in Options -/
+def CmdLineNamedFromOptions : Prop :=
+  ∀ (o : Options) (h : Host) (a : List String), o.args = some a → cmdLineNameSrc G o h = .opt a
+
+theorem cmdline_name_witness : ¬ CmdLineNamedFromOptions := by
+  intro hh
+  have := hh { args := some ["prog"] } {} ["prog"] rfl
+  rw [cmdline_name_host] at this
+  cases this
+
+/-- … it is right exactly when Options.Args is nil (the script's arguments are then the host's) -/
+theorem cmdline_name_partial (o : Options) (h : Host) (hn : o.args = none) : cmdLineNameSrc G o h = scriptArgsSrc G o h := by
+  rw [cmdline_name_host, (args_src_iff o h).mpr hn]
+
+private theorem flag_parse_b :
+    (allCfgs.all fun cfg => ioStream G cfg "flag" "Parse" == .hostFlag && ioStream G cfg "flag" "Args" == .hostFlag) = true := by decide
+
+/-- F13-2 in terms of Options: `flag.Parse(); flag.Args()` works on the host's command line for every Options -/
+theorem flag_parse_host (o : Options) (h : Host) : flagParseSrc G o h = .host := by
+  have hb := forall_cfg flag_parse_b (cfgOf G o h)
+  simp only [Bool.and_eq_true, beq_iff_eq] at hb
+  simp [flagParseSrc, hb.1, hb.2]
 
 /-- full-strength statement: no function of os consults the host environment in restricted mode -/
 def NoHostEnvRead : Prop := ∀ (cfg : Cfg) (name : String), cfg.unrestricted = false → envSource G cfg name ≠ .host
